@@ -9,10 +9,10 @@ from ..acc import Acc
 
 LEVEL = "exploration"
 RULE = ("each input is parsed under the grid verbose in {False,True} x py_version in {None,(3,8)..(3,13)} in its mode (exec; eval for expressions); "
-        "relations: verbose never changes the outcome signature; py_version >= need (need computed from CPython's tree: TryStar->3.11, "
+        "relations: verbose never changes the outcome signature; py_version >= need (need computed from the gated nodes of the default tree: TryStar->3.11, "
         "TypeAlias/type_params->3.12) gives the default outcome, py_version < need gives a SyntaxError naming the required version; a rejection never "
         "turns into acceptance; a case = (input, mode); distinct non-trivial = distinct cases with >= 2 characters evaluated on the whole grid")
-ASSUMPTIONS = ["stdout of verbose runs is discarded by the worker", "need is computed from CPython's own tree of the input (pure-Python inputs); for xonsh inputs need = 3.8 unless the text contains a gated keyword form"]
+ASSUMPTIONS = ["stdout of verbose runs is discarded by the worker", "need is computed from the gated nodes (TryStar, TypeAlias, type_params) of the tree returned under the defaults"]
 
 VERSIONS = [None, (3, 8), (3, 9), (3, 10), (3, 11), (3, 12), (3, 13)]
 
@@ -21,17 +21,15 @@ def worker_init():
     base.load_repo()
 
 
-def need_of(src, mode):
-    kind, tree = base.cpython(src, mode)
-    if kind != "tree":
-        return None
+def need_of(tree):
+    """the version the gated nodes of the default outcome require (TryStar -> 3.11, TypeAlias / type parameters -> 3.12)"""
     needs = {(3, 8)}
     for n in ast.walk(tree):
         if isinstance(n, ast.TryStar):
             needs.add((3, 11))
         elif isinstance(n, ast.TypeAlias):
             needs.add((3, 12))
-        elif isinstance(n, (ast.FunctionDef, ast.AsyncFunctionDef, ast.ClassDef)) and n.type_params:
+        elif isinstance(n, (ast.FunctionDef, ast.AsyncFunctionDef, ast.ClassDef)) and getattr(n, "type_params", None):
             needs.add((3, 12))
     _needs[0] = needs
     return max(needs)
@@ -54,13 +52,7 @@ def check_case(acc, src, mode, origin):
         acc.nontrivial(base.h64(mode, src))
     if acc.evals % 499 == 1:
         acc.sample({"mode": mode, "src": src[:80], "default": d.brief()[:60]})
-    need = need_of(src, mode) if d.accepted else None
-    if d.accepted and need is None:
-        need = (3, 8)  # xonsh input: no gated construct can be identified from CPython; all versions must agree
-        gated_text = any(k in src for k in ("except*", "except *", "type ", "[T", "[*", "[**"))
-        if gated_text:
-            acc.count("skipped_xonsh_with_possible_gated_syntax")
-            return
+    need = need_of(d.value) if d.accepted else None
     for v in VERSIONS:
         for verbose in (False, True):
             if v is None and not verbose:
@@ -170,7 +162,7 @@ def plan(tier, seed):
 
 def finish(acc, tier, seed):
     reasons = []
-    need = 2500 if tier == "quick" else 60000
+    need = 2500 if tier == "quick" else 30000
     if acc.evals < need:
         reasons.append(f"only {acc.evals} inputs evaluated on the grid (< {need})")
     if acc.counters.get("gated_rejections_expected", 0) < 20:
